@@ -535,6 +535,68 @@ func (b *bgen) injectScenario(name string, rootDefs, paths M, aux map[string]M, 
 		paths["/scn/a"] = M{"get": resp(M{"$ref": "aux/a.json#/definitions/" + jsonPtrEscape(tn)})}
 		paths["/scn/c"] = M{"get": resp(M{"$ref": "other/c.json#/definitions/" + jsonPtrEscape(tn)})}
 		g.hit("scenario:collide-nested")
+	case "collide-simple-shared":
+		// an imported definition that collides by name with a root definition, is simple ($ref-free array / map / enum) and
+		// is referred to from several places, the topmost of which is a property nested inside a root definition
+		if len(b.auxPaths) == 0 || len(b.rootDefs) == 0 {
+			return
+		}
+		ap := b.auxPaths[0]
+		rn := b.rootDefs[g.n(len(b.rootDefs))]
+		var simple M
+		switch g.n(3) {
+		case 0:
+			simple = M{"type": "array", "items": M{"type": "string"}}
+		case 1:
+			simple = M{"type": "object", "additionalProperties": M{"type": "integer"}}
+		default:
+			simple = M{"type": "string", "enum": []any{"a", "b"}}
+		}
+		aux[ap]["definitions"].(M)[rn] = simple
+		auxRef := relRef("", ap) + "#/definitions/" + urlFragEscape(jsonPtrEscape(rn))
+		holder := "holderS" + fmt.Sprint(g.n(3))
+		prop := g.pick([]string{"labels", "a b", "x/y"})
+		rootDefs[holder] = M{"type": "object", "properties": M{prop: M{"$ref": auxRef}, "n": M{"type": "integer"}}}
+		paths["/scn/simple"] = M{"get": resp(M{"$ref": auxRef}), "put": resp(M{"$ref": "#/definitions/" + jsonPtrEscape(holder)})}
+		if g.p(0.5) {
+			paths["/scn/simple2"] = M{"post": resp(M{"type": "array", "items": M{"$ref": auxRef}})}
+		}
+		g.hit("scenario:collide-simple-shared")
+	case "prefix-names":
+		// definition names one of which is a strict prefix of another; the shorter one is referred to only from inside the
+		// longer one or from inside itself; both recursive (they survive Expand)
+		short := g.pick([]string{"shape", "sha/pe", "sh~ape", "my shape"})
+		long := short + g.pick([]string{"Group", " group", "/set"})
+		rootDefs[short] = M{"type": "object", "properties": M{"kids": M{"type": "array", "items": M{"$ref": "#/definitions/" + jsonPtrEscape(short)}}}}
+		rootDefs[long] = M{"type": "object", "properties": M{
+			"members": M{"type": "array", "items": M{"$ref": "#/definitions/" + jsonPtrEscape(short)}},
+			"parent":  M{"$ref": "#/definitions/" + jsonPtrEscape(long)}}}
+		paths["/scn/prefix"] = M{"get": resp(M{"$ref": "#/definitions/" + jsonPtrEscape(long)})}
+		if g.p(0.5) {
+			// an unused definition whose name is a prefix of a used one that is the only referrer of a third
+			rootDefs["pet"] = M{"type": "string"}
+			rootDefs["petStore"] = M{"type": "object", "properties": M{"location": M{"$ref": "#/definitions/address"}}}
+			rootDefs["address"] = M{"type": "object", "properties": M{"street": M{"type": "string"}}}
+			paths["/scn/store"] = M{"get": resp(M{"$ref": "#/definitions/petStore"})}
+		}
+		g.hit("scenario:prefix-names")
+	case "ref-siblings":
+		// a $ref with schema-bearing siblings (kept by the loader): the only $ref to a definition sits under such a sibling
+		tgt, only := g.pick([]string{"tagS", "tag s", "t/s"}), g.pick([]string{"extraOnly", "extra only", "e~x"})
+		rootDefs[tgt] = M{"type": "object", "properties": M{"v": M{"type": "string"}}}
+		rootDefs[only] = M{"type": "object", "properties": M{"w": M{"type": "integer"}}}
+		var sib M
+		switch g.n(3) {
+		case 0:
+			sib = M{"$ref": "#/definitions/" + jsonPtrEscape(tgt), "properties": M{"extra": M{"$ref": "#/definitions/" + jsonPtrEscape(only)}}}
+		case 1:
+			sib = M{"$ref": "#/definitions/" + jsonPtrEscape(tgt), "items": M{"$ref": "#/definitions/" + jsonPtrEscape(only)}}
+		default:
+			sib = M{"$ref": "#/definitions/" + jsonPtrEscape(tgt), "allOf": []any{M{"$ref": "#/definitions/" + jsonPtrEscape(only)}}}
+		}
+		rootDefs["withSiblings"] = M{"type": "object", "properties": M{"p": sib}}
+		paths["/scn/siblings"] = M{"get": resp(M{"$ref": "#/definitions/withSiblings"})}
+		g.hit("scenario:ref-siblings")
 	case "unused-chain":
 		// definitions that become unused only after another one is removed, through names that need escaping
 		if g.p(0.5) {
